@@ -179,6 +179,14 @@ def check_case(p, ctx):
         ctx.count("defaults-left-out")
     else:
         call(frame.calculate_stress_tensor, grid, radius)
+    if p["vseed"] % 3 == 0:
+        # another frame (a scaled copy of the tissue, other grid) is analysed before this frame's results are read
+        t_o = t.similarity(scale=1.7, shift=complex(3.0, -2.0) * t.extent())
+        R_o = realise(t_o, nint, gen.lab_of(p))
+        frame_o = make_frame(R_o)
+        assign(frame_o, R_o, p2, t2)
+        call(frame_o.calculate_stress_tensor, max(1, grid - 1), radius)
+        ctx.count("another-frame-analysed-in-between")
     ps = frame.principal_stress
     xc, yc = frame.stress_tensor[1][0], frame.stress_tensor[1][1]
     Sf = read(frame.stress_tensor[0], grid)
